@@ -230,7 +230,6 @@ func consumingTerminal(e ast.Expression) bool {
 	return false
 }
 
-
 // shareLeaves adds one or two leaf rules whose whole body is a class or a one-rune literal and puts references
 // to them into choices next to other one-rune terminals, each site with different neighbours: under
 // -optimize-grammar the leaf is inlined at every site and merged with that site's neighbours, so one source class
@@ -467,4 +466,49 @@ func inputs(r *rand.Rand, g *ast.Grammar, alpha []rune, k int) []string {
 		out = append(out, in)
 	}
 	return out
+}
+
+// systematic returns the i-th of the hand-made grammars that head every run (nil when i is past them): for each special
+// code point c the rules `A <- "c"i`, `A <- "-c"i "c"` , `A <- [c]i+` and `A <- [kc0-9]i / "c"`.
+func systematic(i int) *ast.Grammar {
+	k, v := i/4, i%4
+	if i < 0 || k >= len(special) {
+		return nil
+	}
+	c := special[k]
+	lit := func(s string, ic bool) *ast.LitMatcher {
+		l := ast.NewLitMatcher(ast.Pos{}, s)
+		l.IgnoreCase = ic
+		return l
+	}
+	r := rand.New(rand.NewSource(int64(i) + 1))
+	av := pvpeg.Avoid{ClassFoldRanges: true}
+	var e ast.Expression
+	switch v {
+	case 0:
+		e = lit(string(c), true)
+	case 1:
+		s := ast.NewSeqExpr(ast.Pos{})
+		s.Exprs = []ast.Expression{lit("-"+string(c), true), lit(string(c), false)}
+		e = s
+	case 2:
+		p := ast.NewOneOrMoreExpr(ast.Pos{})
+		p.Expr = pvpeg.BuildClass(r, []pvpeg.ClassItem{{Lo: c}}, false, true, av)
+		e = p
+	default:
+		ch := ast.NewChoiceExpr(ast.Pos{})
+		ch.Alternatives = []ast.Expression{
+			pvpeg.BuildClass(r, []pvpeg.ClassItem{{Lo: 'k'}, {Lo: c}, {Lo: '0'}, {Lo: '9'}}, false, true, av),
+			lit(string(c), false)}
+		e = ch
+	}
+	g := ast.NewGrammar(ast.Pos{})
+	g.Init = ast.NewCodeBlock(ast.Pos{}, "{\npackage main\n}")
+	rule := ast.NewRule(ast.Pos{}, ast.NewIdentifier(ast.Pos{}, "A"))
+	rule.Expr = e
+	g.Rules = append(g.Rules, rule)
+	if pvpeg.CheckWF(g) != nil {
+		return nil
+	}
+	return g
 }
